@@ -912,7 +912,7 @@ func copyVal(v Value) Value {
 	case *ArrObj:
 		return &ArrObj{node: x.node, ew: x.ew}
 	case *BigObj:
-		return &BigObj{v: x.v}
+		return &BigObj{v: x.v, dig: x.dig}
 	case *TimeObj:
 		return &TimeObj{days: x.days, nanos: x.nanos}
 	case *BufObj:
